@@ -10,7 +10,7 @@ ID = "C03"
 RULE = ("value side: every date 0001-01-01..9999-12-31 (quick: every 97th + boundaries), every second of the day as TIME and as DATE-TIME on rotating "
         "dates (naive and UTC), every UTC offset -86399..+86399 s (quick: stride 61 + boundaries), durations: every second in +-200000 s and every whole "
         "day +-4000 (quick: strided) plus random to +-1e9 s, integers around 2^31/2^32/2^63/2^64 and random to 2^70, floats from random finite bit patterns "
-        "and decimal literals, BOOLEAN, BINARY/URI/CAL-ADDRESS random Unicode, GEO pairs, periods (explicit and by duration; naive, UTC), weekdays x "
+        "and decimal literals, BOOLEAN, BINARY (payload as text and as UTF-8 octets, also starting with U+FEFF)/URI/CAL-ADDRESS random Unicode, GEO pairs, periods (explicit and by duration; naive, UTC), weekdays x "
         "ordinals +-1..53 x sign forms x case, frequencies x case, months x leap flag; grammar side: generated grammar-valid strings per type decoded and "
         "compared with R4's evaluator, and classified by the combined decoder; non-trivial = every case (each exercises encode+grammar+decode); "
         "distinct by construction for enumerations, by hash for random")
@@ -182,7 +182,8 @@ def run(ctx):
         elif r == 3:
             ctx.check(("float", struct.unpack("<Q", struct.pack("<d", round(rng.uniform(-1e6, 1e6), rng.randrange(0, 9))))[0]), "random-float")
         elif r == 4:
-            ctx.check(("binary", rand_unicode(rng, rng.randrange(0, 60))), "random-binary")
+            payload = rng.choice(("", "", "", "\ufeff", "\ufeff\ufeff")) + rand_unicode(rng, rng.randrange(0, 60))
+            ctx.check(("binary", payload, rng.randrange(2)), "random-binary")
         elif r == 5:
             ctx.check((rng.choice(("uri", "caladdress")), rng.choice(("mailto:", "http://", "urn:", "")) + rand_unicode(rng, rng.randrange(0, 40))), "random-uri")
         elif r == 6:
@@ -325,7 +326,8 @@ def check_case(ctx, case):
             fail("inverse", observed=enc, expected=want)
     elif kind == "binary":
         s = case[1]
-        t = text_of(P.vBinary(s).to_ical())
+        # the payload is handed over as text or (third element) as the UTF-8 octets of that text
+        t = text_of(P.vBinary(s.encode("utf-8") if len(case) > 2 and case[2] else s).to_ical())
         grammar(R4.BINARY, t, "BINARY base64")
         if base64.b64decode(t) != s.encode("utf-8"):
             fail("encoded-meaning", observed=t, expected=base64.b64encode(s.encode()).decode())
